@@ -169,3 +169,25 @@ Proof.
 Qed.
 
 End HistProofs.
+
+(* ---- kalign_write_msa is read-only: it changes neither the store nor the ambient state, so the write calls of a history can
+   be dropped without changing any later result ---------------------------------------------------------------------------- *)
+Section WriteReadOnly.
+Variable acore : ambient -> Z -> params -> list (list Z) -> list (list Z) -> list (list nat).
+Definition is_write (c : call) : bool := match c with CWrite _ _ _ _ _ => true | _ => false end.
+Definition drop_writes (cs : list call) : list call := filter (fun c => negb (is_write c)) cs.
+
+Lemma step_write_read_only x h fmt b d v : fst (step acore x (CWrite h fmt b d v)) = x.
+Proof. destruct x as [G s]. cbn [step]. destruct (s h); reflexivity. Qed.
+
+Lemma run_history_drop_writes : forall cs x, fst (run_history acore x cs) = fst (run_history acore x (drop_writes cs)).
+Proof.
+  induction cs as [|c cs IH]; intros x; [reflexivity|].
+  cbn [run_history drop_writes filter]. destruct (step acore x c) as [x' r] eqn:E.
+  destruct (is_write c) eqn:W; cbn [negb].
+  - destruct c; try discriminate. pose proof (step_write_read_only x h fmt basename date version) as Q. rewrite E in Q. cbn [fst] in Q. subst x'.
+    specialize (IH x). fold (drop_writes cs). destruct (run_history acore x cs) as [y rs]. cbn [fst] in *. exact IH.
+  - cbn [run_history]. rewrite E. specialize (IH x'). fold (drop_writes cs).
+    destruct (run_history acore x' cs) as [y rs]. destruct (run_history acore x' (drop_writes cs)) as [y2 rs2]. cbn [fst] in *. exact IH.
+Qed.
+End WriteReadOnly.
